@@ -189,11 +189,24 @@ UBSAN_RE = re.compile(r"^(\S+?):(\d+):(\d+): runtime error: (.*)$")
 TSAN_RE = re.compile(r"WARNING: ThreadSanitizer: ([^(]+?) \(pid")
 
 
-def _lib_func(frames, variant_root=None):
+GENERIC_ALLOC = {"psBufInit", "psDynBufInit", "psDynBufGrow", "psDynBufAppendSize", "pstm_init_size", "pstm_init", "pstm_grow", "pstm_init_copy",
+                 "pstm_init_for_read_unsigned_bin", "psMallocNative", "psCallocNative", "psReallocNative", "psStrdupN", "psBufFromData", "psDynBufDetach"}
+SKIP_FN = ("__interceptor_", "__wrap_", "__asan", "__sanitizer", "__lsan", "__ubsan", "__tsan", "operator ")
+
+
+def _lib_func(frames, variant_root=None, skip_generic=False):
+    """innermost frame that belongs to the library under test: built under the scratch tree, or
+    (crypto/ and core/ are compiled with relative paths) a relative source path."""
     for fn, path in frames:
-        if "/harness/" in path or "/checks/" in path or "/verif/" in path and "/verif-build/" not in path:
+        if fn.startswith(SKIP_FN):
             continue
-        if any(d in path for d in LIBDIRS) and "verif-build" in path:
+        if "/verif/harness/" in path or "/verif/checks/" in path or "/verif/gen/" in path:
+            continue
+        if skip_generic and fn in GENERIC_ALLOC:
+            continue
+        if "verif-build" in path and any(d in path for d in LIBDIRS):
+            return fn
+        if not path.startswith("/") and not path.startswith("(") and (".c:" in path or ".h:" in path):
             return fn
     return None
 
@@ -245,7 +258,7 @@ def sanitizer_keys(text):
             if tool == "LeakSanitizer":
                 seen = set()
                 for b in blocks:
-                    fn = _lib_func(b) or (b[0][0] if b else "?")
+                    fn = _lib_func(b, skip_generic=True) or _lib_func(b) or (b[0][0] if b else "?")
                     if fn not in seen:
                         seen.add(fn)
                         out.append(("lsan:leak:%s" % fn, "\n".join("%s %s" % x for x in b[:8])))
